@@ -97,6 +97,16 @@ RECURSIVE DependentParam(_, _)
 DependentParam(CT, T) ==
   \/ T.k = "C" /\ T.n \in DOMAIN CT /\ \E i \in DOMAIN CT[T.n].tp : CT[T.n].tp[i].b # <<>> /\ CT[T.n].tp[i].b[1].k = "V"
   \/ \E i \in DOMAIN T.a : DependentParam(CT, T.a[i])
+\* sub-shape of a DependentParam query C<..>: declared variance of the bounding parameter X and the kind of the argument in the
+\* dependent slot Y (plain / out / in / star), so that the known defects of this branch are listed one input shape at a time
+ArgKind(a) == IF a.k = "W" THEN a.n ELSE "plain"
+DepSub(CT, T) ==
+  IF T.k = "C" /\ T.n \in DOMAIN CT /\ Len(T.a) = Len(CT[T.n].tp) /\ \E j \in DOMAIN CT[T.n].tp : CT[T.n].tp[j].b # <<>> /\ CT[T.n].tp[j].b[1].k = "V"
+  THEN LET tps == CT[T.n].tp
+           j == CHOOSE j \in DOMAIN tps : tps[j].b # <<>> /\ tps[j].b[1].k = "V" /\ \A q \in DOMAIN tps : (tps[q].b # <<>> /\ tps[q].b[1].k = "V") => j <= q
+           is == {i \in DOMAIN tps : tps[i].n = tps[j].b[1].n} IN
+       (IF is = {} THEN "outer" ELSE tps[CHOOSE i \in is : TRUE].v) \o "." \o ArgKind(T.a[j])
+  ELSE "nested"
 \* a parameter whose bound is a parameterized type that mentions another parameter (class Low<A, Y : Lymphoma<G, A, A>, F>): the search
 \* re-instantiates the argument in Y's slot to fit the bound for the new A (_replace_type_argument) even where the slot is invariant
 RECURSIVE ParamInBound(_, _)
